@@ -192,6 +192,27 @@ int main(int argc, char** argv) {
         }
       } while (od.Next());
     }
+    // ... and every text without a ':' that names something: all strings up to 6 tokens over name, blank, tab, CR, LF,
+    // backslash-newline, CRLF (how a file can end matters: the last name may be closed by the end of the input)
+    if (shard == 0) {
+      const vector<string> tok = {"a", " ", "\t", "\r", "\n", "\\\n", "\r\n", "b"};
+      for (int len = 1; len <= 6; ++len) {
+        vx::Odometer od(len, (int)tok.size());
+        do {
+          string text;
+          bool named = false;
+          for (int k = 0; k < len; ++k) { text += tok[od.d[k]]; if (od.d[k] == 0 || od.d[k] == 7) named = true; }
+          if (!named) continue;
+          string content = text, err;
+          DepfileParser p;
+          r.files++;
+          r.names++;
+          if (p.Parse(&content, &err) || err.empty()) {
+            if (!r.violations++) { first_bad = text; first_why = "depfile without ':' was accepted"; }
+          } else rejected++;
+        } while (od.Next());
+      }
+    }
     printf("{\"cases\":%llu,\"files\":%llu,\"accepted_ok\":%llu,\"rejected_ok\":%llu,\"violations\":%llu,\"first_bad\":\"%s\",\"first_why\":\"%s\"}\n",
            (unsigned long long)r.names, (unsigned long long)r.files, (unsigned long long)accepted, (unsigned long long)rejected,
            (unsigned long long)r.violations, vx::Hex(first_bad).c_str(), vx::JsonEscape(first_why).c_str());
